@@ -39,9 +39,14 @@ def grid(quick):
             g.append(("real_fa", {"pop_size": ps, "alpha": 0.25, "beta": 1.0, "gamma": 1.0, "delta": 0.97}, pr, (ps, ps)))
         for ps in ([3] if quick else [1, 3, 8]):
             g.append(("real_bh", {"num_particles": ps}, pr, (ps, ps)))
-        for ps, mc in ([(4, 0.5)] if quick else [(2, 0.5), (4, 0.2), (4, 0.8), (8, 0.5)]):
-            g.append(("real_cro", {"initial_population_size": ps, "mole_coll": mc, "kinetic_energy_lr": 0.2, "alpha": 3, "beta": 0.1,
-                                   "initial_kinetic_energy": 5.0, "buffer": 1.0, "on_wall_deviation": 0.1,
+        # CRO: parameter points chosen so that all four elementary reactions occur (synthesis needs low kinetic
+        # energies w.r.t. beta, decomposition needs alpha small w.r.t. the hit counters)
+        cro_points = [(4, 0.5, 5.0, 0.1, 3), (8, 0.2, 0.0, 1000.0, 3), (4, 0.9, 50.0, 0.1, 0)]
+        if not quick:
+            cro_points += [(2, 0.5, 5.0, 0.1, 3), (12, 0.2, 0.0, 1000.0, 1), (8, 0.8, 1.0, 0.5, 0), (3, 0.1, 0.0, 1000.0, 3)]
+        for ps, mc, ke, beta, alpha in cro_points:
+            g.append(("real_cro", {"initial_population_size": ps, "mole_coll": mc, "kinetic_energy_lr": 0.2, "alpha": alpha, "beta": beta,
+                                   "initial_kinetic_energy": ke, "buffer": 1.0, "on_wall_deviation": 0.1,
                                    "decomposition_deviation": 0.3}, pr, (1, 10 ** 6)))
     for pr in bits:
         for ps, ts in ([(4, 2)] if quick else [(4, 2), (1, 1), (6, 6)]):
